@@ -93,6 +93,9 @@ add(EX, r'^overflow\(\+\)\(reorg_count, sampled_count\)$', 'counts of in-memory 
 add(EX, r'^overflow\(\+\)\(Add\(reorg_count, sampled_count\)\.0, last_n_count\)$', 'counts of in-memory headers', ['call:check_if_response_is_matched'])
 add(EX, r'^overflow\(-\)\(Add\(Add\(_, _\)\.0, last_n_count\)\.0, 1_usize\)$', 'under sampled_count != 0 the sum is >= 1', ['call:check_if_response_is_matched'])
 add(EX, r'^Index\(headers, Sub\(Add\(_, _\)\.0, 1_usize\)\.0\)$', POST + ': the index is headers.len() - 1', ['call:check_if_response_is_matched'])
+add(EX, r'^Index\(verifiable_headers, RangeInclusive::new\(\.\.\)\)$', POST + ': reorg_count != 0 and last_n_count != 0 are tested just before => reorg_count < len (F79 fix)', ['call:check_if_response_is_matched', 'cmp:Ne(last_n_count, 0_usize)'])
+add(EX, r'^SliceOp\(Chain::collect\(\.\.\), 2_usize\)$', 'windows(2): constant non-zero size (F80 fix)')
+add(EX, r'^bounds\([01]_usize, pair\.len\(\)\)$', 'pair is an element of windows(2): length exactly 2')
 add(EX, r'^Index\(verifiable_headers, _\)$', POST + ': the same vector before the conversion to header views; bounds reorg_count and reorg_count + sampled_count are <= its length (F43 fix)', ['call:check_if_response_is_matched'])
 add(EX, r'^Index\(headers, _\)$', POST + ': every range bound (reorg_count, reorg_count + sampled_count, headers.len() - last_n_count) is <= headers.len()', ['call:check_if_response_is_matched'])
 add(EX, r'^overflow\(-\)\(headers\.len\(\), last_n_count\)$', POST, ['call:check_if_response_is_matched'])
